@@ -81,8 +81,12 @@ func Run(r *ev.Run, replay string) {
 		"reference: pip._vendor.packaging 21.3 (the generation the library mirrors), trusted after a start-up self-test",
 		"requirement strings use only space and tab as whitespace (PEP 508 wsp); strings packaging rejects or parses as URL requirements are outside the domain",
 		"an arbitrary-equality clause (===v) is always followed by whitespace before ',' ';' or ')': packaging's === token swallows any non-space characters, which the PEP 508 grammar the property quantifies over does not allow",
-		"marker atom domain: markers packaging rejects or whose evaluation raises UndefinedComparison are outside the domain; atoms whose left value is not a PEP 440 version while the right value is one are not generated (packaging 21.3 coerces the left side to LegacyVersion, later generations compare strings)",
-		"extra is compared with == only (both operand orders): the library documents and tests that any other operator on extra is rejected, as setuptools never emits one",
+		"specifier clauses are compared as sets under packaging's own clause identity (>=1.0 and >=1.0.0 are one element of a SpecifierSet); every clause packaging reports must occur literally (whitespace removed) in the library's text",
+		"'not in' is written with exactly one space: packaging 21.3 recognises no other spelling (and, through pyparsing's tab expansion, accepts not<TAB>in only at some columns); string literals carry no tabs and no leading/trailing blanks",
+		"marker atom domain: markers packaging rejects or whose evaluation raises UndefinedComparison/UndefinedEnvironmentName (literal against literal, ~= on non-versions) are outside the domain",
+		"marker atom domain: atoms whose left value is not a PEP 440 version while operator+right value is a valid specifier are not judged (packaging 21.3 coerces the left side to LegacyVersion, later generations compare strings or refuse); this covers === on string-valued variables",
+		"marker atom domain: where the left value goes through Version() two more 21.3-only behaviours are not judged: === with a left literal that is not in normal form (21.3 compares str(Version(left))), and a pre/dev-release literal on the left of a version comparison (21.3 drops pre-releases in Specifier.contains, later generations pass prereleases=True)",
+		"extra is compared with == only (both operand orders) against non-empty names: the library documents and tests that any other operator on extra is rejected, as setuptools never emits one",
 		"a resolution requests several extras at once only when the marker mentions at most one distinct extra literal: packaging evaluates one extra at a time and pip takes the disjunction over the requested extras, whereas the library looks every extra atom up in the union; on the restricted domain the two readings coincide",
 		"the target environment is the Markers table of util/resolve/pypi/internal/env.gen.go read as text (the package is internal); every value is confirmed by probing the resolver with `var === \"candidate\"` markers before it is used",
 	}
